@@ -44,7 +44,107 @@ def gen_cases(tier, seed):
                 if ln >= 5000 and what in ("columns",) and tier == "quick":
                     continue
                 cases.append({"id": "L/%s/%d/%s" % (what, ln, route), "biglist": what, "length": ln, "route": route, "seed": ln})
+    # metadata that came from another writer (file-level fields fastparquet never writes itself: column_orders) and is re-serialised by
+    # merge / append / remove_row_groups / in-place key-value update
+    for i, op in enumerate(["merge", "merge_append", "merge_remove", "update_kv", "merge_overwrite", "write_common"] * (2 if tier == "quick" else 20)):
+        cases.append({"id": "RS/%s/%d" % (op, i), "reser": op, "seed": 7000 + i, "route": "foreign", "nfiles": 2 + i % 3})
     return cases
+
+
+def reserialise_case(case):
+    """Foreign footers through the library's metadata-rewriting operations; every file-level field must survive."""
+    import os
+    import pandas as pd
+    import fastparquet
+    from fastparquet import writer as FW
+    from vf.props import common as C
+    from vf.ref import writer as W
+    from vf.ref import reader as R
+    counters = {}
+    res = {"features": [], "nontrivial": False, "failures": [], "counters": counters}
+    rng = np.random.default_rng([case["seed"], 10])
+    root = C.fresh_path("")
+    os.makedirs(root)
+    op = case["reser"]
+    ctx = {"op": op, "route": "foreign", "struct": "FileMetaData", "size_class": "reserialise", "long_form": False}
+    try:
+        paths, metas = [], []
+        rid0 = 0
+        for j in range(case["nfiles"]):
+            n = int(rng.integers(3, 20))
+            cols = [{"name": "rid", "ptype": "INT64", "converted": None, "rows": [int(x) for x in range(rid0, rid0 + n)], "use_dict": False, "page_rows": [10 ** 9]},
+                    {"name": "s", "ptype": "BYTE_ARRAY", "converted": 0, "rows": [("v%d" % x).encode() for x in rng.integers(0, 50, n)], "use_dict": bool(j % 2), "page_rows": [7]}]
+            rid0 += n
+            spec = {"codec": "UNCOMPRESSED", "columns": cols, "row_groups": [n], "column_orders": True, "created_by": "parquet-mr version 1.12.3 (build abc)",
+                    "kv": [("writer.note", "kept verbatim \u00e9"), ("k%d" % j, "v")] if j == 0 else [("writer.note", "kept verbatim \u00e9")]}
+            data, fmd = W.build_file(spec)
+            p = os.path.join(root, "part.%d.parquet" % j)     # the naming append / renumbering expect
+            with open(p, "wb") as f:
+                f.write(data)
+            paths.append(p)
+            metas.append(fmd)
+        src = metas[0]
+
+        def file_level(path):
+            info = R.read_file(path, data_dir=root, check_pages=False)
+            return info
+
+        def check(path, what, expect_rgs=None):
+            info = file_level(path)
+            for code, where, detail in info.diags:
+                if code == "NUM_ROWS" and path.endswith("_common_metadata"):
+                    continue        # a schema-only summary keeps the dataset's row count with an empty row-group list (a note, see C02)
+                res["failures"].append({"kind": "idl_violation", "code": code, "where": what + ":" + where, "detail": detail[:120], **ctx})
+            m = info.meta
+            if m is None:
+                return
+            for fld in ("column_orders", "created_by", "schema", "version"):
+                a, b = CP_.normalise(src.get(fld)), CP_.normalise(m.get(fld))
+                if a != b:
+                    res["failures"].append({"kind": "value_changed", "path": what + "." + fld, "expected": repr(a)[:80], "got": "<absent>" if m.get(fld) is None else repr(b)[:80], **ctx})
+            kv_src = {e["key"]: e["value"] for e in (src.get("key_value_metadata") or [])}
+            kv_got = {e["key"]: e["value"] for e in (m.get("key_value_metadata") or [])}
+            for k_, v_ in kv_src.items():
+                if kv_got.get(k_) != v_ and not (what.startswith("update") and k_ in (b"k0",)):
+                    res["failures"].append({"kind": "value_changed", "path": what + ".key_value_metadata[%r]" % k_, "expected": repr(v_)[:60], "got": repr(kv_got.get(k_))[:60], **ctx})
+            counters["reserialised_footers_checked"] = counters.get("reserialised_footers_checked", 0) + 1
+        from vf.ref import compact as CP_
+        if op == "update_kv":
+            FW.update_file_custom_metadata(paths[0], {"added": "x" * int(rng.integers(1, 40)), "k0": None})
+            check(paths[0], "update_kv")
+        elif op == "write_common":
+            pf = fastparquet.ParquetFile(paths[0])
+            FW.write_common_metadata(os.path.join(root, "_common_metadata"), pf.fmd, no_row_groups=True)
+            check(os.path.join(root, "_common_metadata"), "write_common")
+        else:
+            FW.merge(paths)
+            check(os.path.join(root, "_metadata"), "merge:_metadata")
+            check(os.path.join(root, "_common_metadata"), "merge:_common_metadata")
+            if op == "merge_append":
+                fastparquet.write(root, pd.DataFrame({"rid": np.arange(1000, 1005, dtype="int64"), "s": ["a", "b", "c", "d", "e"]}),
+                                  file_scheme="hive", append=True, write_index=False)
+                check(os.path.join(root, "_metadata"), "append:_metadata")
+                check(os.path.join(root, "_common_metadata"), "append:_common_metadata")
+            elif op == "merge_remove":
+                pf = fastparquet.ParquetFile(root)
+                pf.remove_row_groups(pf.row_groups[0])
+                check(os.path.join(root, "_metadata"), "remove:_metadata")
+                check(os.path.join(root, "_common_metadata"), "remove:_common_metadata")
+            elif op == "merge_overwrite":
+                pf = fastparquet.ParquetFile(root)
+                pf.write_row_groups(pd.DataFrame({"rid": np.arange(2000, 2003, dtype="int64"), "s": ["x", "y", "z"]}))
+                check(os.path.join(root, "_metadata"), "write_row_groups:_metadata")
+                check(os.path.join(root, "_common_metadata"), "write_row_groups:_common_metadata")
+        counters["reserialise_cases"] = 1
+        counters["route:foreign"] = 1
+    except Exception as e:
+        res["failures"].append({"kind": "round_trip_raised", **ctx, **C.exc_shape(e)})
+    finally:
+        C.cleanup(root)
+    res["outcome"] = "ok"
+    res["nontrivial"] = True
+    res["features"] = ["FileMetaData", "reserialise", op, case["nfiles"], False]
+    return res
 
 
 def to_thrift(idl, sname, tree):
@@ -117,6 +217,8 @@ def run_case(case):
     idl = IDL.load()
     counters = {}
     res = {"features": [], "nontrivial": False, "failures": [], "counters": counters}
+    if "reser" in case:
+        return reserialise_case(case)
     route = case["route"]
     if "big" in case:
         sname, tree = big_tree(case, idl)
@@ -216,4 +318,4 @@ def run_case(case):
 
 
 def required(tier):
-    return {"serialisations": 800, "round_trips": 700, "route:api": 200, "route:foreign": 300}
+    return {"serialisations": 800, "round_trips": 700, "route:api": 200, "route:foreign": 300, "reserialised_footers_checked": 15}
